@@ -169,6 +169,12 @@ def run_job(job, tree, trace=False):
         else:
             rc, secs = sh(cmd, tree, job.timeout, res_file)
         txt = open(res_file, errors="replace").read()
+        if not job.mem_gb and re.search(r"[Oo]ut of memory|ran out of memory", txt) and "VERIFICATION SUCCESSFUL" not in txt and "VERIFICATION FAILED" not in txt:
+            # the 14 GB limit was not enough (typically: changed code that works on whole words of a symbolic-size buffer):
+            # one more attempt with 40 GB, alone (heavy jobs run one at a time)
+            with _heavy_lock:
+                rc, secs = sh(cmd, tree, job.timeout, res_file, mem_kb=40 * 1024 * 1024)
+            txt = open(res_file, errors="replace").read()
         if "too many addressed objects" not in txt:
             break
     out["time"] = time.time() - t_all
@@ -486,6 +492,31 @@ def run_check(prop, jobs, tier, replay_fn=None, extra_assumptions=(), level_text
                         fh.write("  " + v + "\n")
                 print("VIOLATION property=%s replay=%s no-failing-input-found" % (prop, rp))    # a static fact about the code, no input involved
                 code = 1
+        # a job the verifier could not decide (time, memory, code it cannot take): the native replayer still runs its family on
+        # the real code; a failing input found there is a violation in its own right (with the input), whatever the verifier said
+        still = []
+        for (j, o) in undec:
+            found, text = False, ""
+            if replay_fn and j.replay and not o.get("frame_mismatch"):
+                try:
+                    ck = (j.replay, tuple(d for d in j.defs if d.startswith("SKINNY_VERIF_")))
+                    if ck not in fam_cache:
+                        fam_cache[ck] = replay_fn(j, {}, tree, seed)
+                    found, text = fam_cache[ck]
+                except Exception as e:
+                    text = "replay error: %r" % (e,)
+            if found:
+                rp = os.path.join(EVDIR, "replay", "%s_%s.txt" % (prop, j.id.replace("/", "_")))
+                with open(rp, "w") as fh:
+                    fh.write("property: %s\njob: %s\nfunction(s) under contract: %s\n" % (prop, j.id, ", ".join(j.functions)))
+                    fh.write("failed obligations:\n  (none decided: the verifier gave no verdict - %s)\n" % o["reason"])
+                    fh.write("\n--- native replay (%s): failing input on the real code ---\n%s\n" % (j.replay, text))
+                print("VIOLATION property=%s replay=%s" % (prop, rp))
+                code = 1
+                done_jobs.add(j.id)
+            else:
+                still.append((j, o))
+        undec = still
         for (j, o) in undec:
             print("UNDECIDED property=%s job=%s reason=%s" % (prop, j.id, o["reason"]))
             if code == 0:
